@@ -8,6 +8,10 @@
 //!   `connect` answers EADDRNOTAVAIL; with `reuse=0` its `bind` answers EADDRINUSE); on `broken` ports the node hangs
 //!   up during the handshake (an error that is NOT address-unavailable).
 //!   Output: `ok <source port>` / `nosource <shard>` / `err <port> other` / `err-unavailable <label>` / `skip <why>`.
+//! * `conn6 … <any|lo>` - the same over IPv6 (`connect_with_source_ip_and_port`'s V6 arm, `connection.rs:2219-2226`): the node
+//!   listens on `[::1]`; `lo` = `local_ip_address = Some(::1)`, `any` = `None` (the driver binds `[::]:port`). `::1` is shared
+//!   by the whole machine, so these cases run under a cross-process file lock, take ranges outside the OS's ephemeral
+//!   range, and leave no TIME_WAIT socket behind (the node closes first, the holders reset). `features6`: likewise.
 //! * `sess n lo hi reuse inuse taken` - a real `Session` built with `SessionBuilder::{local_ip_address,
 //!   shard_aware_local_port_range, tcp_reuse_address}` against a one-node mock cluster; output: per shard the source
 //!   port of the pool's connection when it lies in the configured range, else `x`.
@@ -23,7 +27,7 @@ use crate::{Ctx, Tier};
 use scylla::routing::{ShardAwarePortRange, ShardCount, Sharder};
 use scylla::verif_hooks::connection::{VerifConn, VerifConnOptions};
 use std::collections::BTreeSet;
-use std::net::{IpAddr, Ipv4Addr, SocketAddr};
+use std::net::{IpAddr, Ipv4Addr, Ipv6Addr, SocketAddr};
 use std::sync::atomic::{AtomicU32, Ordering};
 use std::sync::{Arc, Mutex};
 use std::time::Duration;
@@ -73,8 +77,24 @@ fn take_some(rng: &mut Rng, pool: &mut Vec<u16>, k: usize) -> Vec<u16> {
     out
 }
 
-fn gen_conn(rng: &mut Rng) -> String {
-    let (lo, hi) = small_range(rng);
+/// A short range outside the OS's ephemeral port range (`::1` is shared with every other socket of the machine).
+fn v6_range(rng: &mut Rng) -> (u16, u16) {
+    let len = rng.range(1, 24) as u16;
+    match rng.below(4) {
+        0 => (65535 - (len - 1), 65535),
+        1 => {
+            let lo = rng.range(61100, 65535 - len as i64) as u16;
+            (lo, lo + len - 1)
+        }
+        _ => {
+            let lo = rng.range(1100, 32000) as u16;
+            (lo, lo + len - 1)
+        }
+    }
+}
+
+fn gen_conn(rng: &mut Rng, v6: bool) -> String {
+    let (lo, hi) = if v6 { v6_range(rng) } else { small_range(rng) };
     let len = (hi - lo + 1) as u64;
     let n = match rng.below(8) {
         0 => 1,
@@ -152,6 +172,10 @@ fn gen_conn(rng: &mut Rng) -> String {
     taken.sort_unstable();
     broken.sort_unstable();
     let reuse = if taken.is_empty() { rng.chance(1, 3) } else { rng.chance(3, 4) };
+    if v6 {
+        let local = if rng.bool() { "lo" } else { "any" };
+        return format!("conn6 {} {} {} {} {} {} {} {} {}", n, s, lo, hi, reuse as u8, nat_list(&inuse), nat_list(&taken), nat_list(&broken), local);
+    }
     format!("conn {} {} {} {} {} {} {} {}", n, s, lo, hi, reuse as u8, nat_list(&inuse), nat_list(&taken), nat_list(&broken))
 }
 
@@ -217,11 +241,16 @@ pub fn generate(rng: &mut Rng, tier: Tier, emit: &mut dyn FnMut(String)) {
         let b = sw(rng, ob);
         let c = sw(rng, oc);
         let (a, b, c) = if rng.chance(1, 12) { ("-", "-", "-") } else { (a, b, c) };
-        emit(format!("features plain {} {} {} {} {}", a, b, c, port_word(rng), port_word(rng)));
+        let kind = if rng.chance(1, 8) { "features6" } else { "features" };
+        emit(format!("{} plain {} {} {} {} {}", kind, a, b, c, port_word(rng), port_word(rng)));
     }
     // the consumer loop
     for _ in 0..1500 * scale {
-        emit(gen_conn(rng));
+        emit(gen_conn(rng, false));
+    }
+    // the same loop over IPv6 loopback (the V6 arm of connect_with_source_ip_and_port)
+    for _ in 0..150 * scale {
+        emit(gen_conn(rng, true));
     }
     for _ in 0..10 * scale {
         emit(gen_sess(rng));
@@ -237,6 +266,19 @@ struct MiniNode {
     /// source ports of the accepted connections, in accept order
     accepted: Arc<Mutex<Vec<u16>>>,
     task: tokio::task::JoinHandle<()>,
+    conn_tasks: Arc<Mutex<Vec<tokio::task::JoinHandle<()>>>>,
+}
+
+impl MiniNode {
+    /// The node closes every connection FIRST (the TIME_WAIT state then stays on the node's side, whose port is the
+    /// case's own), and gives the peers a moment to see it.
+    async fn close_all(&self) {
+        self.task.abort();
+        for t in self.conn_tasks.lock().unwrap().drain(..) {
+            t.abort();
+        }
+        tokio::time::sleep(Duration::from_millis(3)).await;
+    }
 }
 
 impl Drop for MiniNode {
@@ -253,11 +295,13 @@ enum Script {
     Entries(Vec<(String, Vec<String>)>),
 }
 
-async fn start_mini(ip: Ipv4Addr, script: Script, broken: BTreeSet<u16>) -> std::io::Result<MiniNode> {
+async fn start_mini(ip: IpAddr, script: Script, broken: BTreeSet<u16>) -> std::io::Result<MiniNode> {
     let listener = TcpListener::bind(SocketAddr::from((ip, 0))).await?;
     let addr = listener.local_addr()?;
     let accepted: Arc<Mutex<Vec<u16>>> = Arc::new(Mutex::new(Vec::new()));
     let acc2 = Arc::clone(&accepted);
+    let conn_tasks: Arc<Mutex<Vec<tokio::task::JoinHandle<()>>>> = Arc::new(Mutex::new(Vec::new()));
+    let ct2 = Arc::clone(&conn_tasks);
     let task = tokio::spawn(async move {
         loop {
             let Ok((mut sock, peer)) = listener.accept().await else { return };
@@ -268,7 +312,7 @@ async fn start_mini(ip: Ipv4Addr, script: Script, broken: BTreeSet<u16>) -> std:
                 continue;
             }
             let script = script.clone();
-            tokio::spawn(async move {
+            let handle = tokio::spawn(async move {
                 loop {
                     let mut hdr = [0u8; 9];
                     if sock.read_exact(&mut hdr).await.is_err() {
@@ -304,9 +348,10 @@ async fn start_mini(ip: Ipv4Addr, script: Script, broken: BTreeSet<u16>) -> std:
                     }
                 }
             });
+            ct2.lock().unwrap().push(handle);
         }
     });
-    Ok(MiniNode { addr, accepted, task })
+    Ok(MiniNode { addr, accepted, task, conn_tasks })
 }
 
 static CASE_COUNTER: AtomicU32 = AtomicU32::new(0);
@@ -328,29 +373,46 @@ struct Holders {
     _connected: Vec<TcpStream>,
 }
 
+fn new_socket(ip: IpAddr) -> std::io::Result<TcpSocket> {
+    if ip.is_ipv4() { TcpSocket::new_v4() } else { TcpSocket::new_v6() }
+}
+
 /// `Err(why)`: the environment does not allow the case (a port that should be free is not, a holder cannot be set up).
-async fn hold_ports(local: Ipv4Addr, node: SocketAddr, should_be_free: &[u16], inuse: &[u16], taken: &[u16]) -> Result<Holders, String> {
+/// `driver_bind`: the address the driver will bind its sockets to (the probe binds exactly there); `local`: where the
+/// holders sit; `reset_on_close`: the holders close with a reset (SO_LINGER 0), leaving no TIME_WAIT socket.
+#[allow(deprecated)] // SO_LINGER 0 on a holder that is dropped: a reset, nothing blocks
+async fn hold_ports(driver_bind: IpAddr, local: IpAddr, node: SocketAddr, should_be_free: &[u16], inuse: &[u16], taken: &[u16], reset_on_close: bool) -> Result<Holders, String> {
     // probe: a port the case counts as free must be bindable right now (no SO_REUSEADDR: the strictest test)
     for &p in should_be_free {
-        let s = TcpSocket::new_v4().map_err(|e| format!("socket:{:?}", e.kind()))?;
-        if s.bind(SocketAddr::from((local, p))).is_err() {
+        let s = new_socket(driver_bind).map_err(|e| format!("socket:{:?}", e.kind()))?;
+        if s.bind(SocketAddr::new(driver_bind, p)).is_err() {
             return Err(format!("port-not-free:{p}"));
         }
     }
     let mut bound = Vec::new();
     for &p in inuse {
-        let s = TcpSocket::new_v4().map_err(|e| format!("socket:{:?}", e.kind()))?;
-        s.bind(SocketAddr::from((local, p))).map_err(|e| format!("hold-bind:{p}:{:?}", e.kind()))?;
+        let s = new_socket(local).map_err(|e| format!("socket:{:?}", e.kind()))?;
+        s.bind(SocketAddr::new(local, p)).map_err(|e| format!("hold-bind:{p}:{:?}", e.kind()))?;
         bound.push(s);
     }
     let mut connected = Vec::new();
     for &p in taken {
-        let s = TcpSocket::new_v4().map_err(|e| format!("socket:{:?}", e.kind()))?;
+        let s = new_socket(local).map_err(|e| format!("socket:{:?}", e.kind()))?;
         s.set_reuseaddr(true).map_err(|e| format!("reuseaddr:{:?}", e.kind()))?;
-        s.bind(SocketAddr::from((local, p))).map_err(|e| format!("hold-bind:{p}:{:?}", e.kind()))?;
+        if reset_on_close {
+            s.set_linger(Some(Duration::ZERO)).map_err(|e| format!("linger:{:?}", e.kind()))?;
+        }
+        s.bind(SocketAddr::new(local, p)).map_err(|e| format!("hold-bind:{p}:{:?}", e.kind()))?;
         connected.push(s.connect(node).await.map_err(|e| format!("hold-connect:{p}:{:?}", e.kind()))?);
     }
     Ok(Holders { _bound: bound, _connected: connected })
+}
+
+/// IPv6 loopback is ONE address for the whole machine: cases on it are serialised across processes.
+fn v6_lock() -> Option<std::fs::File> {
+    let f = std::fs::OpenOptions::new().create(true).truncate(false).write(true).open("/tmp/verif_c11_v6.lock").ok()?;
+    f.lock().ok()?;
+    Some(f)
 }
 
 fn parse_list(w: &str) -> Option<Vec<u16>> {
@@ -369,9 +431,13 @@ fn is_unavailable_label(label: &str) -> bool {
 // ---------------------------------------------------------------------------------------------------------------
 
 fn run_conn(w: &[&str], ctx: &mut Ctx) -> String {
-    if w.len() != 9 {
-        return "bad-case".into();
-    }
+    // `conn6 … any|lo`: over IPv6 loopback, with `local_ip_address` None / Some(::1)
+    let v6: Option<bool> = match (w[0], w.len()) {
+        ("conn", 9) => None,
+        ("conn6", 10) if w[9] == "lo" => Some(true),
+        ("conn6", 10) if w[9] == "any" => Some(false),
+        _ => return "bad-case".into(),
+    };
     let (Ok(n), Ok(s), Ok(lo), Ok(hi), Ok(reuse)) = (w[1].parse::<u16>(), w[2].parse::<u16>(), w[3].parse::<u16>(), w[4].parse::<u16>(), w[5].parse::<u8>()) else {
         return "bad-case".into();
     };
@@ -387,14 +453,41 @@ fn run_conn(w: &[&str], ctx: &mut Ctx) -> String {
     let free: Vec<u16> = valid.iter().copied().filter(|p| !busy.contains(p) && !hung.contains(p)).collect();
     let should_be_free: Vec<u16> = (lo..=hi).filter(|p| !busy.contains(p)).collect();
 
+    if v6.is_some() {
+        let (elo, ehi) = os_ephemeral();
+        if lo <= ehi && elo <= hi {
+            return "skip range-overlaps-os-ephemeral-range".into();
+        }
+    }
+    let _lock = match v6 {
+        Some(_) => match v6_lock() {
+            Some(l) => Some(l),
+            None => return "skip no-v6-lock".into(),
+        },
+        None => None,
+    };
     let rt = mockcluster::runtime(1);
     rt.block_on(async {
-        let (node_ip, local) = case_ips();
+        let (node_ip, local, driver_local): (IpAddr, IpAddr, Option<IpAddr>) = match v6 {
+            None => {
+                let (a, b) = case_ips();
+                (IpAddr::V4(a), IpAddr::V4(b), Some(IpAddr::V4(b)))
+            }
+            Some(with_local) => {
+                let l = IpAddr::V6(Ipv6Addr::LOCALHOST);
+                (l, l, with_local.then_some(l))
+            }
+        };
+        let driver_bind = driver_local.unwrap_or(IpAddr::V6(Ipv6Addr::UNSPECIFIED));
         let node = match start_mini(node_ip, Script::ByPort(n), hung.clone()).await {
             Ok(nd) => nd,
+            Err(e) if v6.is_some() => return format!("skip no-ipv6-loopback:{:?}", e.kind()),
             Err(e) => return format!("skip listen:{:?}", e.kind()),
         };
-        let _holders = match hold_ports(local, node.addr, &should_be_free, &inuse, &taken).await {
+        if (lo..=hi).contains(&node.addr.port()) {
+            return "skip node-port-in-range".to_owned();
+        }
+        let holders = match hold_ports(driver_bind, local, node.addr, &should_be_free, &inuse, &taken, v6.is_some()).await {
             Ok(h) => h,
             Err(why) => return format!("skip {why}"),
         };
@@ -412,7 +505,7 @@ fn run_conn(w: &[&str], ctx: &mut Ctx) -> String {
             s as u32,
             nr,
             MSB,
-            Some(IpAddr::V4(local)),
+            driver_local,
             range,
             if reuse != 0 { Some(true) } else { None },
             Duration::from_secs(10),
@@ -428,7 +521,7 @@ fn run_conn(w: &[&str], ctx: &mut Ctx) -> String {
                 ));
             }
         };
-        match result {
+        let line = match result {
             Ok(conn) => {
                 let Some(&p) = reached.last() else { return "skip no-accept-recorded".to_owned() };
                 if reached.len() != 1 {
@@ -446,6 +539,10 @@ fn run_conn(w: &[&str], ctx: &mut Ctx) -> String {
                 if conn.shard_info() != Some((s, n, MSB)) {
                     ctx.fail(format!("the connection landed on {:?}, requested shard {s} of {n}", conn.shard_info()));
                 }
+                if v6.is_some() {
+                    node.close_all().await;
+                }
+                drop(conn);
                 format!("ok {p}")
             }
             Err(label) if label.starts_with("NoSourcePortForShard:") => {
@@ -482,7 +579,12 @@ fn run_conn(w: &[&str], ctx: &mut Ctx) -> String {
                     format!("err - {label}")
                 }
             },
+        };
+        if v6.is_some() {
+            node.close_all().await;
         }
+        drop(holders);
+        line
     })
 }
 
@@ -529,7 +631,7 @@ fn run_sess(w: &[&str], ctx: &mut Ctx) -> String {
         };
         let cluster = MockCluster::start(topo, Box::new(|_| vec![mockcluster::act_void()])).await;
         let node = cluster.addr(0);
-        let _holders = match hold_ports(local, node, &should_be_free, &inuse, &taken).await {
+        let _holders = match hold_ports(IpAddr::V4(local), IpAddr::V4(local), node, &should_be_free, &inuse, &taken, false).await {
             Ok(h) => h,
             Err(why) => return format!("skip {why}"),
         };
@@ -604,6 +706,15 @@ fn run_features(w: &[&str], ctx: &mut Ctx) -> String {
     if w.len() != 7 || w[1] != "plain" {
         return "bad-case".into();
     }
+    let v6 = w[0] == "features6";
+    let _lock = if v6 {
+        match v6_lock() {
+            Some(l) => Some(l),
+            None => return "skip no-v6-lock".into(),
+        }
+    } else {
+        None
+    };
     let keys = ["SCYLLA_SHARD", "SCYLLA_NR_SHARDS", "SCYLLA_SHARDING_IGNORE_MSB", "SCYLLA_SHARD_AWARE_PORT", "SCYLLA_SHARD_AWARE_PORT_SSL"];
     let mut entries = Vec::new();
     for (k, word) in keys.iter().zip(&w[2..7]) {
@@ -614,9 +725,10 @@ fn run_features(w: &[&str], ctx: &mut Ctx) -> String {
     let first = |i: usize| -> Option<String> { entry_values(w[2 + i]).and_then(|v| v.first().cloned()) };
     let rt = mockcluster::runtime(1);
     rt.block_on(async {
-        let (node_ip, _) = case_ips();
+        let node_ip = if v6 { IpAddr::V6(Ipv6Addr::LOCALHOST) } else { IpAddr::V4(case_ips().0) };
         let node = match start_mini(node_ip, Script::Entries(entries), BTreeSet::new()).await {
             Ok(nd) => nd,
+            Err(e) if v6 => return format!("skip no-ipv6-loopback:{:?}", e.kind()),
             Err(e) => return format!("skip listen:{:?}", e.kind()),
         };
         let conn = match VerifConn::open(node.addr, VerifConnOptions::default()).await {
@@ -629,6 +741,9 @@ fn run_features(w: &[&str], ctx: &mut Ctx) -> String {
         };
         let info = conn.shard_info();
         let port = conn.shard_aware_port();
+        if v6 {
+            node.close_all().await;
+        }
         // oracle: the kept values are the first values of the RIGHT keys
         let expect_info = match (first(0), first(1), first(2)) {
             (Some(a), Some(b), Some(c)) => match (a.parse::<u16>(), b.parse::<u16>(), c.parse::<u8>()) {
@@ -733,9 +848,9 @@ fn run_range(w: &[&str], ctx: &mut Ctx) -> String {
 
 pub fn run(w: &[&str], ctx: &mut Ctx) -> Option<String> {
     Some(match w[0] {
-        "conn" => run_conn(w, ctx),
+        "conn" | "conn6" => run_conn(w, ctx),
         "sess" => run_sess(w, ctx),
-        "features" => run_features(w, ctx),
+        "features" | "features6" => run_features(w, ctx),
         "drawpub" | "iterpub" => run_pub(w, ctx),
         "range" => run_range(w, ctx),
         _ => return None,
